@@ -93,6 +93,22 @@ def run(F, R, tier, cfg):
     R.floor("LOCK-L1", n_release, 4, "releasing stores (ongoing_start=None / initialized=true)")
     R.floor("LOCK-L2", n_notified, 2, "notified_owned registrations")
 
+    # ---- ORDER-publish: a lookup's result is published (active-path slot updated) before its waiters are woken
+    fu = PS + "PathSet::<F>::fetch_and_update::{closure#0}"
+    fb = F.body(fu)
+    if fb is None:
+        R.anchor_missing(fu)
+    else:
+        R.fn(fu)
+        pubs = [c.bb for c in fb.calls if not c.indirect and c.decl.endswith("::maybe_update_active_path") and c.bb in fb.live_blocks()]
+        nots = [c for c in fb.calls if not c.indirect and c.decl.endswith("Notify::notify_waiters") and c.bb in fb.live_blocks()]
+        okp = bool(pubs) and bool(nots) and all(any(fb.dominates(p0, c.bb) for p0 in pubs) for c in nots)
+        R.ob("ORDER-publish", "fetch_and_update: maybe_update_active_path dominates every notify_waiters (%d publish, %d notify)" % (len(pubs), len(nots)), okp, True,
+             {"rule": "ORDER-publish", "fn": fu, "publish_calls": len(pubs), "notify_calls": len(nots), "holds": okp})
+        if not okp:
+            R.violation("ORDER-publish", fu, "waiters of a lookup are woken before its result is published to the active-path slot: a woken waiter (or a fresh "
+                        "caller) finds no active path and no error and returns NoPathsFound although the lookup succeeded", F.loc(PS + "PathSet::<F>::fetch_and_update"))
+
     # ---- M: worker exit path
     task = PS + "PathSet::<F>::manage::{closure#0}"
     b = F.body(task)
